@@ -1,4 +1,4 @@
-import MgpuModel.C19
+import MgpuModel.C19_Base
 /-! # C19 — the closed system `World`
 
 `World` = the system `Sys` of `MgpuModel/C19.lean` (two controllers ticked by `tick`, two byte
